@@ -25,6 +25,7 @@ func rulesC15(c *Ctx) {
 	R.Rule("R3", "state check: per-Y entry, SPENT/PENDING priority behind hits of that Y, witness of the matching row, resolve before answer", 9)
 	R.Rule("R4", "restore: per-message read by B_, skip exactly on no-rows, other errors fail, lock-step append of unmodified signatures; error wrapping visible to errors.Is", 7)
 	R.Rule("R5", "SQL statements agree with Go arguments and scan destinations", 25)
+	R.Rule("R7", "proofs of a melt that settles later are moved from the pending to the spent table with all their fields (amount, id, secret, C, witness) taken from the pending row", 6)
 	R.Rule("R6", "restore returns nothing for outputs the mint refused: swap stores signatures only after the spent-table insert succeeded (shared with C01.R3)", 1)
 	c.vocabProblems("R1")
 	c.ruleSigsAfterSpent("R6")
@@ -63,6 +64,44 @@ func rulesC15(c *Ctx) {
 	c.scanLocalsCopied("R5", "GetProofsUsed", map[string]string{"witness": "Witness"})
 	c.scanLocalsCopied("R5", "GetPendingProofs", map[string]string{"witness": "Witness"})
 	c.scanLocalsCopied("R5", "GetPendingProofsByQuote", map[string]string{"witness": "Witness"})
+	c.c15PendingToSpentKeepsFields()
+}
+
+// c15PendingToSpentKeepsFields: R7. When a pending melt is settled later (poll / state check), the proofs that go
+// into the spent table are rebuilt from the pending rows: every field the state check answers with - above all the
+// witness - is taken from the same row, unchanged.
+func (c *Ctx) c15PendingToSpentKeepsFields() {
+	R := c.R
+	f := c.fn("R7", "mint.(*Mint).removePendingProofsForQuote")
+	if f == nil {
+		return
+	}
+	fk := c.P.FuncKey(f)
+	o := c.P.OriginsOf(f)
+	n := 0
+	for _, r := range o.SuccessReturns() {
+		if len(r.Results) == 0 {
+			continue
+		}
+		ret := o.Of(r.Results[0])
+		if ret.K != "map" {
+			R.Undecided("R7", fk, "settled proofs rebuilt field by field from the pending rows", c.P.InstrPos(r), "the returned list is the element-wise image of the pending rows", "returned value is "+short(ret.String(), 120))
+			continue
+		}
+		n++
+		list, el := ret.Args[0].String(), ret.Args[1]
+		src := ret.Args[0]
+		okSrc := src.K == "call" && src.Idx == 0 && c.dbCallWithRole(src, roleReadLocked)
+		R.Check("R7", fk, "settled proofs come from the pending rows of the quote", c.P.InstrPos(r), okSrc, "the list is built over the rows read from the pending table", short(list, 100))
+		for _, fld := range []string{"Amount", "Id", "Secret", "C", "Witness"} {
+			got := project(el, fld)
+			R.Check("R7", fk, "field "+fld+" carried over from the pending row", c.P.InstrPos(r), got.String() == "elem("+list+")."+fld,
+				"the proof marked spent carries the row's own "+fld+" (the state check reports the witness of the spent row)", fld+" = "+short(got.String(), 100))
+		}
+	}
+	if n == 0 {
+		R.Check("R7", fk, "settled proofs rebuilt field by field from the pending rows", c.P.Pos(f.Pos()), false, "a success return hands back the rebuilt proofs", "no such return")
+	}
 }
 
 func (c *Ctx) c15StateCheck() {
